@@ -256,3 +256,22 @@ Proof. vm_compute. repeat split; reflexivity. Qed.
 Example example_d_partition :
   option_map (canon Nat.eqb) (occurrence_vars example_prog_d) = Some (canon target_eqb (spec_resolve example_prog_d)).
 Proof. vm_compute. reflexivity. Qed.
+
+(* class bodies: methods with parameters and defaults, field values, a static block with let, a class in a
+   default value, references from methods to names declared later                                            *)
+(*   class A { m(a, b = a){ a; b; c; A } f = d; static { let e; e; c } }  function g(h = class { n(){ h; i } }){ var i }  let c; g   *)
+Definition example_prog_c : prog :=
+  Decl DLex 1 (Class None
+     (Func None (Decl DParam 2 (Decl DParam 3 (Ref 2 Done))) (Ref 2 (Ref 3 (Ref 4 (Ref 1 Done))))
+     (Ref 5
+     (Block (Decl DLex 6 (Ref 6 (Ref 4 Done))) Done)))
+  (Decl DFun 7 (Func None (Decl DParam 8 (Class None (Func None Done (Ref 8 (Ref 10 Done)) Done) Done)) (Decl DVar 9 Done)
+  (Decl DLex 4 (Ref 7 Done))))).
+
+Example example_c_hyps :
+  core_d example_prog_c = true /\ program_ok example_prog_c = true /\ Z.of_nat (occurrences example_prog_c) < 65536.
+Proof. vm_compute. repeat split; reflexivity. Qed.
+
+Example example_c_partition :
+  option_map (canon Nat.eqb) (occurrence_vars example_prog_c) = Some (canon target_eqb (spec_resolve example_prog_c)).
+Proof. vm_compute. reflexivity. Qed.
